@@ -46,6 +46,12 @@ def render_script(label, body, bodies):
             out.append('diag_log ["TD",%d,%d]' % (label, ins[1]))
         elif k == "sd":
             out.append('diag_log ["SD",%d,%d,%s,%d,scriptDone h%d]' % (label, step, last, ins[1], ins[1]))
+        elif k == "fs":      # make the condition another script waits for true (the marker comes first: a waiter seen
+            out.append('diag_log ["M",%d,%d,%s]' % (label, step, last))      # going on before it went on too early)
+            out.append('gF%d = true' % ins[1])
+        elif k == "wu":      # wait for that condition
+            out.append('diag_log ["M",%d,%d,%s]' % (label, step, last))
+            out.append('waitUntil {!isNil "gF%d"}' % ins[1])
     return "; ".join(out) + ";"
 
 
@@ -81,10 +87,12 @@ def project(case, evs):
                 body = case["desc"]["bodies"].get(f[1], [])
                 ins = body[int(f[2]) - 1] if 1 <= int(f[2]) <= len(body) else ["m"]
                 nap = ins[1] if ins[0] == "sl" else 0
+                waits = ins[1] if ins[0] == "wu" else 0
+                sets = ins[1] if ins[0] == "fs" else 0
             if f[0] == "M":
-                out.append({"e": "Ev", "id": e["id"], "t": "mark", "ctx": e["ctx"], "label": int(f[1]), "step": int(f[2]), "last": f[3] == "true", "clk": e.get("clk", 0), "nap": nap})
+                out.append({"e": "Ev", "id": e["id"], "t": "mark", "ctx": e["ctx"], "label": int(f[1]), "step": int(f[2]), "last": f[3] == "true", "clk": e.get("clk", 0), "nap": nap, "waits": waits, "sets": sets})
             elif f[0] == "SD":
-                out.append({"e": "Ev", "id": e["id"], "t": "mark", "ctx": e["ctx"], "label": int(f[1]), "step": int(f[2]), "last": f[3] == "true", "clk": e.get("clk", 0), "nap": nap})
+                out.append({"e": "Ev", "id": e["id"], "t": "mark", "ctx": e["ctx"], "label": int(f[1]), "step": int(f[2]), "last": f[3] == "true", "clk": e.get("clk", 0), "nap": nap, "waits": waits, "sets": sets})
                 out.append({"e": "Ev", "id": e["id"], "t": "sd", "ctx": e["ctx"], "target": int(f[4]), "val": f[5] == "true"})
             elif f[0] == "TD":
                 out.append({"e": "Ev", "id": e["id"], "t": "td", "target": int(f[2])})
@@ -138,6 +146,16 @@ def systematic(tier):
     shapes.append(([1], {1: [("sp", 2), ("sl", 5), ("te", 2), ("sd", 2), ("sd", 2)], 2: [M, ("sl", 8), M, M]}))
     # naps long enough that nothing but the wake-up time explains the delay (fractions of a second)
     shapes.append(([1, 2], {1: [M, ("sl", 40), M, M], 2: [M, ("sl", 75), M]}))
+    # waitUntil: the waiting script goes on only after the statement that makes its condition true (set by a script that
+    # runs, sleeps or loops first; two waiters on one condition; a waiter spawned late; the condition true already)
+    for wpos in range(0, 3):
+        for sbody in ([M, M, ("fs", 1), M], [("sl", 6), ("fs", 1)], [("lp", 9), M, ("fs", 1), M], [("fs", 1)]):
+            b1 = [M, M]
+            b1 = b1[:wpos] + [("wu", 1)] + b1[wpos:]
+            shapes.append(([1, 2], {1: b1, 2: sbody}))
+            shapes.append(([2, 1, 3], {1: b1, 2: sbody, 3: [M, ("wu", 1), M]}))
+    shapes.append(([1, 2], {1: [("sp", 4), M, ("sl", 4), ("fs", 2), M], 2: [M, ("sl", 9), ("fs", 1)], 4: [M, ("wu", 1), M, ("wu", 2), M]}))
+    shapes.append(([1, 2, 3], {1: [("wu", 1), ("fs", 2), M], 2: [M, ("wu", 2), M], 3: [M, M, M, ("sl", 3), ("fs", 1)]}))
     slices = (1, 2, 3) if tier == "quick" else (1, 2, 3, 4, 7)
     cases = []
     for n, (init, bodies) in enumerate(shapes):
@@ -177,6 +195,9 @@ def random_cases(rng, n):
                 else:
                     body.append(M)
             bodies[k] = body
+        if nin >= 2 and rng.random() < 0.3:      # script 1 waits for a condition the last initial script makes true
+            bodies[1].insert(rng.randint(0, len(bodies[1])), ("wu", 1))
+            bodies[nin].insert(rng.randint(0, len(bodies[nin])), ("fs", 1))
         for j in spawned:
             bodies[j] = [M if rng.random() < 0.7 else ("sl", rng.randint(1, 5)) for _ in range(rng.randint(1, 5))]
         cases.append(make_case("rnd%d" % i, labels, bodies, rng.choice([1, 2, 3, 5, 0])))
@@ -214,7 +235,7 @@ def run(rep, tier, seed, replay):
             rep.design_runs.append({"what": "deviation %s violates %s (non-vacuity)" % (nm, inv), "generated": r2.generated, "distinct": r2.distinct})
         cases = systematic(tier) + random_cases(rng, 300 if tier == "quick" else 6000)
     rep.evaluations = len(cases)
-    rep.rule = ("script sets (count, lengths relative to the slice, spawn/finish/sleep/terminate/scriptDone at every position) x slice lengths 1-3 (+150), "
+    rep.rule = ("script sets (count, lengths relative to the slice, spawn/finish/sleep/terminate/scriptDone/waitUntil at every position) x slice lengths 1-3 (+150), "
                 "plus seeded random sets; every slice/erase/marker observation is validated; distinct by configuration; non-trivial = >= 2 scripts")
     events = vlib.run_driver("run", [{k: c[k] for k in ("id", "sched", "conf", "runs")} for c in cases], wdir, kind="rel", timeout_s=20)
     by = vlib.events_by_case(events)
